@@ -1,6 +1,7 @@
 import Model.WinArgv
 import Model.Sh
 import Model.Life
+import Model.Comm
 /-!
   `modeldriver`: one request per input line, one answer per output line.
   The harness runs the implementation on the same requests and diffs the answers.
@@ -170,6 +171,130 @@ def handle (args : List String) : String :=
 
 end LifeIO
 
+namespace CommIO
+open Comm
+
+def bytesOf (tok : String) : Option (List UInt8) := (Hex.decodeW 2 tok).map (·.map (·.toUInt8))
+def hexOf (l : List UInt8) : String := Hex.encodeW 2 (l.map (·.toNat))
+
+def parseAct (t : String) : Option CAct :=
+  match t.toList with
+  | 'r' :: ds => (String.ofList ds).toNat?.map .readIn
+  | 'w' :: 'o' :: h => (bytesOf (String.ofList h)).map (.write .out)
+  | 'w' :: 'e' :: h => (bytesOf (String.ofList h)).map (.write .err)
+  | ['c', 'i'] => some .closeIn
+  | ['c', 'o'] => some (.close .out)
+  | ['c', 'e'] => some (.close .err)
+  | ['z'] => some .sleep
+  | _ => none
+
+def optNat (t : String) : Option (Option Nat) := if t = "-" then some none else t.toNat?.map some
+
+def showRes : Res → String
+  | .ok => "ok"
+  | .timedOut => "timedout"
+  | .oserr e => s!"e{e}"
+
+def bit (b : Bool) : String := if b then "1" else "0"
+
+def showCall : Call → String
+  | .clock => "clock"
+  | .poll fi fo fe tmo => s!"poll/{bit fi}{bit fo}{bit fe}/{match tmo with | some m => toString m | none => "-"}"
+  | .write n => s!"write/{n}"
+  | .closeIn => "close"
+  | .read .out n => s!"read/o/{n}"
+  | .read .err n => s!"read/e/{n}"
+  | .ret r => s!"ret/{showRes r}"
+
+def revNum (r : Rev) : Nat := (if r.pin then 1 else 0) + (if r.pout then 4 else 0) + (if r.perr then 8 else 0) + (if r.phup then 16 else 0)
+
+def showResp : Resp → String
+  | .time t => s!"t{t}"
+  | .revs i o e => s!"r{revNum i}.{revNum o}.{revNum e}"
+  | .n k => s!"n{k}"
+  | .err e => s!"e{e}"
+  | .ok => "ok"
+
+def showOpt : Option (List UInt8) → String
+  | none => "~"
+  | some l => hexOf l
+
+structure St where
+  p : Par
+  w : World
+  results : Array String := #[]
+  idx : Nat := 0
+  bad : Option String := none
+
+def stepEvent (st : St) (ev : String) : St :=
+  if st.bad.isSome then st else
+  let st := { st with idx := st.idx + 1 }
+  match ev.splitOn ":" with
+  | ["s", lim, tl] =>
+    match optNat lim, optNat tl with
+    | some l, some t => { st with p := startRead st.p l t }
+    | _, _ => { st with bad := some s!"bad-event@{st.idx}" }
+  | ["c", n, dt] =>
+    match n.toNat?, dt.toNat? with
+    | some n, some dt =>
+      match childStep st.p st.w { n := n, dt := dt } with
+      | some w' => { st with w := w' }
+      | none => { st with bad := some s!"envviol@{st.idx}:child-step-not-enabled" }
+    | _, _ => { st with bad := some s!"bad-event@{st.idx}" }
+  | ["r", tag] =>
+    match st.p.pc with
+    | .done r =>
+      if showRes r = tag then
+        let (o, e) := result st.p
+        { st with results := st.results.push s!"{tag}:{showOpt o}:{showOpt e}" }
+      else { st with bad := some s!"diverge@{st.idx}:model-returns-{showRes r}-impl-returned-{tag}" }
+    | _ => { st with bad := some s!"diverge@{st.idx}:model-expects-{showCall (pendingCall st.p)}-impl-returned-{tag}" }
+  | ["p", call, n, dt, rest] =>
+    match rest.splitOn "=" with
+    | [fault, resp] =>
+      match n.toNat?, dt.toNat?, optNat fault with
+      | some n, some dt, some f =>
+        let mc := pendingCall st.p
+        if showCall mc ≠ call then
+          { st with bad := some s!"diverge@{st.idx}:model-expects-{showCall mc}-impl-did-{call}" }
+        else
+          let c : Choice := { n := n, dt := dt, fault := f }
+          match answer st.w mc c with
+          | none => { st with bad := some s!"envviol@{st.idx}:{call}-blocks-in-the-model" }
+          | some (r, _, _) =>
+            if showResp r ≠ resp then
+              { st with bad := some s!"envviol@{st.idx}:{call}-answered-{resp}-model-says-{showResp r}" }
+            else
+              match parStep st.p st.w c with
+              | some (p', w') => { st with p := p', w := w' }
+              | none => { st with bad := some s!"envviol@{st.idx}" }
+      | _, _, _ => { st with bad := some s!"bad-event@{st.idx}" }
+    | _ => { st with bad := some s!"bad-event@{st.idx}" }
+  | _ => { st with bad := some s!"bad-event@{st.idx}:{ev}" }
+
+/-- `comm hi ho he input capIn capOut capErr | script… | events…` -/
+def handle (args : List String) : String :=
+  let cfg := args.takeWhile (· ≠ "|")
+  let rest := (args.dropWhile (· ≠ "|")).drop 1
+  let scriptT := rest.takeWhile (· ≠ "|")
+  let events := (rest.dropWhile (· ≠ "|")).drop 1
+  match cfg with
+  | [hi, ho, he, inp, ci, co, ce] =>
+    match bytesOf inp, ci.toNat?, co.toNat?, ce.toNat?, allSome (scriptT.map parseAct) with
+    | some input, some ci, some co, some ce, some script =>
+      let p := mkPar (hi = "1") input (ho = "1") (he = "1")
+      let w : World := { capIn := ci, capOut := co, capErr := ce, inBuf := [], outBuf := [], errBuf := [],
+                         inRd := true, outWr := true, errWr := true, script := script,
+                         now := 1000000000, since := 1000000000, gIn := [], gOut := [], gErr := [] }
+      let st := events.foldl stepEvent { p := p, w := w }
+      match st.bad with
+      | some b => b
+      | none => "ok " ++ " ".intercalate st.results.toList
+    | _, _, _, _, _ => "bad-request"
+  | _ => "bad-request"
+
+end CommIO
+
 def handle (line : String) : String :=
   match tokens line with
   | "win" :: args => handleWin args
@@ -178,6 +303,7 @@ def handle (line : String) : String :=
   | "words" :: args => handleSh "words" args
   | "cmds" :: args => handleSh "cmds" args
   | "life" :: args => LifeIO.handle args
+  | "comm" :: args => CommIO.handle args
   | _ => "bad-request"
 
 partial def loop (h : IO.FS.Stream) (out : IO.FS.Stream) : IO Unit := do
